@@ -1082,6 +1082,64 @@ theorem frame_end_to_end (s : System) (P : List Nat) (o : Obj) (fb : Rat) (d : D
     exact applyOverwrites_get_other _ d q c hq hc how
 
 
+
+/-! ## 15. the `method` option: spellings, and pruning never leaks into the main array -/
+
+/-- the documented aliases select the same simulator -/
+theorem resolveMethod_alias :
+    resolveMethod "stacked" = resolveMethod "stacked_time" ∧ resolveMethod "period" = resolveMethod "period_by_period" := by
+  decide
+
+theorem resolveMethod_names :
+    resolveMethod "stacked" = some .stackedTime ∧ resolveMethod "period" = some .periodByPeriod ∧
+      resolveMethod "first_order" = some .firstOrder ∧ resolveMethod "newton" = none := by decide
+
+/-- **Spelling equivalence.** A run depends on the method string only through the simulator it resolves to: two spellings of
+one method give the same result, frame by frame (same frames, same pruning, same write-back) -/
+theorem runMethod_spelling (solve : Frame → Data → Data) (un : List Nat) (s₁ s₂ : String) (baseFirst n : Nat) (main : Data)
+    (h : resolveMethod s₁ = resolveMethod s₂) :
+    runMethod solve un s₁ baseFirst n main = runMethod solve un s₂ baseFirst n main := by
+  unfold runMethod; rw [h]
+
+example (solve : Frame → Data → Data) (un : List Nat) (b n : Nat) (d : Data) :
+    runMethod solve un "stacked" b n d = runMethod solve un "stacked_time" b n d :=
+  runMethod_spelling solve un _ _ b n d resolveMethod_alias.1
+
+/-- write-back touches an unanticipated-shock row at the frame's first column only -/
+theorem writeBack_get_unant_other (f : Frame) (un : List Nat) (m fr : Data) (q c : Nat) (hq : q < m.rows) (hc : c < m.cols)
+    (hu : q ∈ un) (hne : c ≠ f.first) : (writeBack f un m fr).get q (c : Int) = m.get q (c : Int) := by
+  unfold writeBack
+  rw [Data.get_modify _ _ _ _ hq hc]
+  simp [hu, hne]
+
+/-- **Pruning works on the frame's private copy.** Whatever the frames' solver does, an unanticipated shock at a date where no
+frame of the list starts is in the main array after the loop exactly as it came in — in particular the shocks of LATER frames
+are still there when their frames start (they are zeroed in the earlier frames' copies only). -/
+theorem runFrames_unant_untouched (solve : Frame → Data → Data) (un : List Nat) (q c : Nat) (hu : q ∈ un) :
+    ∀ (fs : List Frame) (m : Data), q < m.rows → c < m.cols → (∀ f ∈ fs, c ≠ f.first) →
+      (runFrames solve un fs m).get q (c : Int) = m.get q (c : Int)
+  | [], _, _, _, _ => rfl
+  | f :: fs, m, hq, hc, h => by
+    simp only [runFrames, List.foldl_cons]
+    have := runFrames_unant_untouched solve un q c hu fs (writeBack f un m (solve f (prune f un m))) hq hc
+      (fun g hg => h g (List.mem_cons_of_mem _ hg))
+    simp only [runFrames] at this
+    rw [this]
+    exact writeBack_get_unant_other f un m _ q c hq hc hu (h f (by simp))
+
+/-- the array frame `f` starts from holds, at `f`'s own first column, the unanticipated shocks of the INPUT (earlier frames
+start earlier, so none of them wrote there; the frame's own pruning keeps its first column) -/
+theorem frame_sees_own_shock (solve : Frame → Data → Data) (un : List Nat) (pre : List Frame) (f : Frame) (main : Data)
+    (q : Nat) (hq : q < main.rows) (hc : f.first < main.cols) (hu : q ∈ un) (hpre : ∀ g ∈ pre, g.first < f.first) :
+    (prune f un (runFrames solve un pre main)).get q (f.first : Int) = main.get q (f.first : Int) := by
+  have hq' : q < (runFrames solve un pre main).rows := by rw [runFrames_rows]; exact hq
+  have hc' : f.first < (runFrames solve un pre main).cols := by rw [runFrames_cols]; exact hc
+  rw [prune_get f un _ q f.first hq' hc']
+  have : ¬ (f.first ≠ f.simLast ∧ q ∈ un ∧ f.first + 1 ≤ f.first) := by omega
+  rw [if_neg this]
+  exact runFrames_unant_untouched solve un q f.first hu pre main hq hc (fun g hg => by have := hpre g hg; omega)
+
+
 end Glue
 
 end IrisVerif.C06
